@@ -115,3 +115,8 @@ Print Assumptions C06_every_entry_of_masks_goes_through_apply_to_mask.
 Theorem C06_mask_fill_comes_from_the_mask_fill_argument : forallb fill_row_ok fill_table = true.
 Proof. exact fills_stay_on_their_side. Qed.
 Print Assumptions C06_mask_fill_comes_from_the_mask_fill_argument.
+
+(* ... and no own mask path hands the mask over to an image path (`self.apply`) that reads an image fill value *)
+Theorem C06_no_mask_path_borrows_the_image_fill : forallb (mask_path_row_ok fill_table) fill_table = true.
+Proof. exact mask_paths_do_not_borrow_the_image_fill. Qed.
+Print Assumptions C06_no_mask_path_borrows_the_image_fill.
